@@ -179,17 +179,42 @@ class AffEval:
 def provably_nonneg(form, constraints, max_coeff=2):
     """is `form` >= 0 whenever every form in `constraints` is >= 0?  Decided by
     searching a representation form = sum(c_i * g_i) + const, c_i in
-    0..max_coeff, const >= 0 (enough for the index arithmetic analysed here)."""
+    0..max_coeff, const >= 0 (enough for the index arithmetic analysed here).
+    Duplicate and constant constraints are dropped first."""
     import itertools
-    syms = set(k for k in form.norm() if k != 1)
+    uniq = []
     for g in constraints:
-        syms |= set(k for k in g.norm() if k != 1)
-    for cs in itertools.product(range(max_coeff + 1), repeat=len(constraints)):
-        rest = form
-        for c, g in zip(cs, constraints):
-            for _ in range(c):
-                rest = rest - g
-        n = rest.norm()
-        if all(k == 1 for k in n) and n.get(1, 0) >= 0:
+        if g.is_const() or any(g == h for h in uniq):
+            continue
+        uniq.append(g)
+    syms = sorted({k for k in form.norm() if k != 1} |
+                  {k for g in uniq for k in g.norm() if k != 1}, key=str)
+    # only constraints that mention a symbol of the form (transitively)
+    need = {k for k in form.norm() if k != 1}
+    changed = True
+    while changed:
+        changed = False
+        for g in uniq:
+            gs = {k for k in g.norm() if k != 1}
+            if gs & need and not gs <= need:
+                need |= gs
+                changed = True
+    uniq = [g for g in uniq if {k for k in g.norm() if k != 1} & need]
+    if len(uniq) > 9:
+        uniq = uniq[:9]
+
+    def vec(f):
+        n = f.norm()
+        return [n.get(k, 0) for k in syms] + [n.get(1, 0)]
+    fv = vec(form)
+    gv = [vec(g) for g in uniq]
+    nsym = len(syms)
+    for cs in itertools.product(range(max_coeff + 1), repeat=len(gv)):
+        rest = list(fv)
+        for c, g in zip(cs, gv):
+            if c:
+                for i in range(nsym + 1):
+                    rest[i] -= c * g[i]
+        if all(x == 0 for x in rest[:nsym]) and rest[nsym] >= 0:
             return True
     return False
